@@ -52,6 +52,7 @@ func (t *mutableTree) Commit(savers ...saver) (hash []byte, version int64, err e
 	if err != nil {
 		return nil, 0, err
 	}
+	verifCommitWindow()
 	for _, saver := range savers {
 		saver.SetImmutableTree(immutable)
 	}
